@@ -44,6 +44,11 @@ CLAIMED = {
    note='Trusted: Coq kernel (+ vm_compute to look up the generated table); translator tools/gen_attrs.py and its pinned hashes; hand-written compose_value/parse bodies in Model/Attr.v tied by a differential run (all 20 kinds at sizes straddling 255/256 octets and 255 ASNs; every value length 0..=300 x every typed code x both widths x length encodings; unknown codes; random octets) with an independent RFC length table as oracle.',
    technique='Coq proof: framing lemma + per-shape value lemmas against a generated rule table; differential correspondence',
    design='5/C04'),
+ 'C01': dict(
+   text='Machine-checked proof (Coq 8.16): for every UPDATE content (any number of conventional withdrawals/announcements with path ids exactly when the session negotiated ADD-PATH reception, any list of path attributes as (flags,type,value) in any order, MP_REACH/MP_UNREACH of any of the 13 modelled families) the reference encoding is accepted by the decoder model and its accessors return exactly that content: section lengths, attributes in order with flags/type/value, typed values of the 20 attribute kinds, conventional and MP NLRI with path ids, and End-of-RIB for exactly the family it denotes (never for a message with conventional NLRI).',
+   note='Trusted: Coq kernel; hand-written Model/Update.v and reference encoder Model/RefEncUpdate.v (tied by a three-way differential run: an independent Python reference encoder generates valid messages of every family/ADD-PATH combination, implementation and extracted model decode them, both are compared with each other and with the generated content). Human-readable display wrappers are exercised only.',
+   technique='Coq proof: framing lemmas over an independent reference encoder, decode-of-encode theorems per accessor; three-way differential correspondence on generated valid messages',
+   design='5/C01'),
  'C02': dict(
    text='Machine-checked proof (Coq 8.16): for every byte string of any length and every session configuration UPDATE decoding returns a message or an error, never a panic (every slice index, unwrap, with_range and u8 operation of the modelled code is an explicit Panic branch shown unreachable); every NLRI iterator (conventional and MP) ends after at most as many items as the section has octets, an item-level error is its last item and no item is a panic; path attribute items and their to_owned conversion, the typed getters and the four community iterators never panic; the all-or-nothing vectors succeed exactly when every item does and fail exactly when an item fails.',
    note='Trusted: Coq kernel; hand-written Model/Update.v over the C04/C05/C13 models (tied by a differential run on mutated valid messages of every family, grammar walks with adversarial length fields, random octets, random ADD-PATH maps; every accessor outcome compared, PANIC/HANG on the implementation is a failing input by itself). Accessors that are thin wrappers (typed_*, find_next_hop, human-readable variants) are exercised only.',
